@@ -69,7 +69,7 @@ def run_property(pid, tier="quick", seed=0, only=None, verbose=False, do_bounded
         except ModuleNotFoundError as e:
             if "contracts.%s" % pidl not in str(e):
                 raise
-    timeout = 10000 if tier == "quick" else 60000
+    timeout = 30000 if tier == "quick" else 60000      # (no obligation needs more than ~10 s alone; the margin is for loaded machines)
     funcs, obl_total, obl_ok, backends, solver_time, prims, samples = {}, 0, 0, {}, 0.0, set(), []
     canaries, all_oids, contract_rows, vac = [], [], [], []
     crashed = []
